@@ -105,4 +105,48 @@ theorem chain_call_plus {f : Func} {o : Origin} (hk : (f.instr o.loc).kind = .ca
       cases this
     · exact Or.inr hp
 
+theorem chain_along {f : Func} {o : Origin} {i j v : Nat} (h : Chain f o i v) (hr : Reach f i j) :
+    Chain f o j v := by
+  induction hr with
+  | refl => exact h
+  | step _ hk ih => exact Chain.carry ih hk
+
+/-- what `reachLoop` marks is reachable from `src`, provided the work list and the marks it starts
+from are. -/
+theorem reachLoop_sound (f : Func) (src : Nat) : ∀ (fuel : Nat) (stack : List Nat) (vis : Array Bool),
+    (∀ s ∈ stack, Reach f src s) → (∀ j, vis.getD j false = true → Reach f src j) →
+    ∀ j, (reachLoop f fuel stack vis).getD j false = true → Reach f src j := by
+  intro fuel
+  induction fuel with
+  | zero => intro stack vis _ hv j hj; simpa [reachLoop] using hv j (by simpa [reachLoop] using hj)
+  | succ n ih =>
+    intro stack vis hs hv j hj
+    cases stack with
+    | nil => exact hv j (by simpa [reachLoop] using hj)
+    | cons i rest =>
+      unfold reachLoop at hj
+      split at hj
+      · exact ih rest vis (fun s hs' => hs s (List.mem_cons_of_mem _ hs')) hv j hj
+      · refine ih _ _ ?_ ?_ j hj
+        · intro s hs'
+          rcases List.mem_append.1 hs' with h1 | h1
+          · exact Reach.step (hs i List.mem_cons_self) h1
+          · exact hs s (List.mem_cons_of_mem _ h1)
+        · intro k hk
+          by_cases hki : k = i
+          · subst hki; exact hs k List.mem_cons_self
+          · apply hv k
+            have : (vis.setIfInBounds i true)[k]? = vis[k]? := by
+              rw [Array.getElem?_setIfInBounds]; simp [Ne.symm hki]
+            simpa [Array.getD_eq_getD_getElem?, this] using hk
+
+theorem reachFrom_sound {f : Func} {d j : Nat} (h : (reachFrom f d).getD j false = true) : Reach f d j := by
+  unfold reachFrom reachSeeds at h
+  refine reachLoop_sound f d _ [d] _ ?_ ?_ j h
+  · intro s hs; rw [List.mem_singleton.1 hs]; exact Reach.refl _
+  · intro k hk
+    exfalso
+    simp [Array.getD_eq_getD_getElem?, Array.getElem?_replicate] at hk
+    split at hk <;> simp at hk
+
 end Argot.Intra
